@@ -1,0 +1,52 @@
+//go:build verif
+
+package state
+
+// Contracts for gocv (contract-based deductive verification, /verif).
+
+//@ opaque type github.com/NethermindEth/juno/core/felt.Felt
+//@ opaque type github.com/Masterminds/semver/v3.Version
+
+// Hash functions are uninterpreted: the contracts pin the pre-images (which values are hashed, in
+// which order), not the arithmetic.
+//@ ghost func ped(a felt.Felt, b felt.Felt) felt.Felt
+//@ extern func github.com/NethermindEth/juno/core/crypto.Pedersen
+//@   requires a != nil && b != nil
+//@   ensures result == ped(*a, *b)
+//@ ghost func feltIsZero(f felt.Felt) bool
+//@ extern func github.com/NethermindEth/juno/core/felt.(*Felt).IsZero
+//@   requires z != nil
+//@   ensures result == feltIsZero(*z)
+//@ ghost func verLess(a semver.Version, b semver.Version) bool
+//@ extern func github.com/Masterminds/semver/v3.(*Version).LessThan
+//@   requires v != nil && o != nil
+//@   ensures result == verLess(*v, *o)
+// core.ParseBlockVersion is under (trusted) contract in package core: blockVer / verParses are
+// that package's spec functions.
+//@ ghost func poseidon3(a felt.Felt, b felt.Felt, c felt.Felt) felt.Felt
+//@ extern func github.com/NethermindEth/juno/core/crypto.PoseidonElems
+//@   logged as PoseidonElems
+//@   ensures len(elems) == 3 && elems[0] != nil && elems[1] != nil && elems[2] != nil ==> result == poseidon3(*elems[0], *elems[1], *elems[2])
+
+// Contract leaf of the global state trie: H(H(H(class_hash, storage_root), nonce), 0).
+//@ func (*stateContract).commitment
+//@   props C01
+//@   arith int
+//@   requires s != nil
+//@   ensures result == ped(ped(ped(s.ClassHash, s.StorageRoot), s.Nonce), felt.Zero)
+
+// The state commitment: 0 for the empty state; the contract root alone while there are no classes
+// and the protocol is older than 0.14.0; otherwise Poseidon("STARKNET_STATE_V0", contracts, classes).
+//@ func stateCommitment
+//@   props C01
+//@   arith int
+//@   requires contractRoot != nil && classRoot != nil && stateVersion0 != nil && core.Ver0_14_0 != nil
+// The parse error is dropped here: with an unparsable version string and an empty class trie the
+// comparison dereferences a nil version (DESIGN.md §8, observation O1). Every caller on the block
+// storage path has run core.CheckBlockVersion first, which is what this precondition records.
+//@   requires parseable: core.verParses(protocolVersion)
+//@   assigns calls_PoseidonElems, arg_PoseidonElems_elems
+//@   ensures empty: feltIsZero(*classRoot) && feltIsZero(*contractRoot) ==> result == felt.Zero
+//@   ensures legacy: feltIsZero(*classRoot) && !feltIsZero(*contractRoot) && verLess(core.blockVer(protocolVersion), *core.Ver0_14_0) ==> result == *contractRoot
+//@   ensures both: !feltIsZero(*classRoot) ==> result == poseidon3(*stateVersion0, *contractRoot, *classRoot)
+//@   ensures modern: feltIsZero(*classRoot) && !feltIsZero(*contractRoot) && !verLess(core.blockVer(protocolVersion), *core.Ver0_14_0) ==> result == poseidon3(*stateVersion0, *contractRoot, *classRoot)
